@@ -45,6 +45,10 @@ pub enum Step {
     /// col 0 = k (unique), 1 = g (small domain), 2 = v (text)
     CreateIndex { t: u8, col: u8 },
     DropTable { t: u8 },
+    /// `DROP INDEX ON t(col)` of the n-th (modulo) index that CREATE INDEX
+    /// statements of this run have built and nothing has dropped since, in
+    /// creation order (no-op when there is none)
+    DropIndex { n: u8 },
     Insert { t: u8, g: u8, u: u32 },
     /// as Insert, with a text value of `kib` KiB: rows of widely varying
     /// size, so the database (and every checkpoint artifact, which embeds a
@@ -76,7 +80,8 @@ pub enum Step {
 
 #[derive(Serialize, Deserialize, Clone, Debug)]
 pub struct Case {
-    /// CheckpointConfig::max_checkpoints (1..=4)
+    /// CheckpointConfig::max_checkpoints (1..=4, or 11..=12: more than the
+    /// default configuration's 10 and more than a page of CHECKPOINTS)
     pub max_checkpoints: usize,
     /// CheckpointConfig::auto_checkpoint (the default configuration has it on):
     /// destructive statements take a checkpoint of their own first
@@ -117,6 +122,8 @@ struct Cp {
     created_at: u64,
     /// observable database at the moment the checkpoint was taken
     dump: Dump,
+    /// `Sys::indexes` at that moment
+    indexes: Vec<(u8, &'static str)>,
 }
 
 fn err_variant(e: &RouterError) -> String {
@@ -231,6 +238,10 @@ struct Sys<'a> {
     edges: Vec<u64>,
     /// (table, k) of rows ever inserted (probe queries through the k column)
     keys: Vec<(u8, u32)>,
+    /// (table, column) of the indexes the acknowledged CREATE INDEX / DROP
+    /// INDEX / DROP TABLE / ROLLBACK statements leave in existence (used to
+    /// choose DROP INDEX targets and for probes; never judged)
+    indexes: Vec<(u8, &'static str)>,
     /// all checkpoints ever created, creation order
     cps: Vec<Cp>,
     rollbacks: u64,
@@ -249,7 +260,67 @@ enum Stop {
     Harness(String),
 }
 
+/// The public entry points of the router that answer a SELECT, each by its
+/// own code path: `execute_parsed` (statement parser, columnar scan),
+/// `execute_parsed_async` (its async twin) and `execute` (the text entry
+/// point: `SELECT * FROM t WHERE col = v` goes to `RelationalEngine::select`,
+/// which answers an equality on an indexed column through the hash index).
+#[derive(Clone, Copy, PartialEq)]
+enum Entry {
+    Parsed,
+    Async,
+    Text,
+}
+
+impl Entry {
+    fn name(self) -> &'static str {
+        match self {
+            Entry::Parsed => "execute_parsed",
+            Entry::Async => "execute_parsed_async",
+            Entry::Text => "execute",
+        }
+    }
+}
+
 impl<'a> Sys<'a> {
+    /// the entry points other than the one the case's statements use
+    fn other_entries(&self) -> [Entry; 2] {
+        if self.case.async_entry {
+            [Entry::Parsed, Entry::Text]
+        } else {
+            [Entry::Async, Entry::Text]
+        }
+    }
+
+    /// a read-only SELECT through one given entry point
+    fn select_via(&self, e: Entry, q: &str) -> Result<QueryResult, RouterError> {
+        let r = match e {
+            Entry::Parsed => self.router.execute_parsed(q),
+            Entry::Async => crate::net::now_or_never(self.router.execute_parsed_async(q)),
+            Entry::Text => self.router.execute(q),
+        };
+        if let Err(RouterError::ParseError(m) | RouterError::UnknownCommand(m) | RouterError::InvalidArgument(m)) = &r {
+            let mut g = self.syntax_errors.borrow_mut();
+            if g.is_none() {
+                *g = Some(format!("workload statement rejected by {}: `{q}`: {m}", e.name()));
+            }
+        }
+        r
+    }
+
+    /// "every query ... returns": the same SELECT through the entry points the
+    /// case's statements do not use; `Err((entry, result))` for the first one
+    /// for which `ok` does not hold
+    fn select_others(&self, q: &str, ok: impl Fn(&Result<QueryResult, RouterError>) -> bool) -> Result<(), (&'static str, String)> {
+        for e in self.other_entries() {
+            let r = self.select_via(e, q);
+            if !ok(&r) {
+                return Err((e.name(), canon(&r)));
+            }
+        }
+        Ok(())
+    }
+
     fn exec(&self, q: &str) -> Result<QueryResult, RouterError> {
         // CHECKPOINT / ROLLBACK enter through `execute` (the text entry point,
         // which forwards these keywords to the statement parser); the other
@@ -315,6 +386,9 @@ impl<'a> Sys<'a> {
         for (t, k) in &self.keys {
             qs.push(format!("SELECT * FROM t{t} WHERE k = {k}"));
         }
+        for (t, k) in self.keys.iter().take(6) {
+            qs.push(format!("SELECT * FROM t{t} WHERE v = 'v{k}'"));
+        }
         qs.push("NODE LIST".into());
         qs.push("EDGE LIST".into());
         for l in 0..N_LABELS {
@@ -351,6 +425,29 @@ impl<'a> Sys<'a> {
         for q in self.dump_queries() {
             let r = self.exec(&q);
             d.insert(q, canon(&r));
+        }
+        // "every query over tables": the relational queries again through each
+        // public entry point that answers them by a different code path (full
+        // scans, equalities on the group, key and text columns; the text entry
+        // point serves an equality on an indexed column from the hash index)
+        let mut rel: Vec<String> = Vec::new();
+        for t in 0..N_TABLES {
+            rel.push(format!("SELECT * FROM t{t}"));
+            for g in 0..N_GROUPS {
+                rel.push(format!("SELECT * FROM t{t} WHERE g = {g}"));
+            }
+        }
+        for (t, k) in self.keys.iter().take(12) {
+            rel.push(format!("SELECT * FROM t{t} WHERE k = {k}"));
+        }
+        for (t, k) in self.keys.iter().take(6) {
+            rel.push(format!("SELECT * FROM t{t} WHERE v = 'v{k}'"));
+        }
+        for e in self.other_entries() {
+            for q in &rel {
+                let r = self.select_via(e, q);
+                d.insert(format!("{q} [via {}]", e.name()), canon(&r));
+            }
         }
         if std::env::var_os("C08_DEBUG").is_some() {
             for (q, r) in &d {
@@ -564,7 +661,8 @@ impl<'a> Sys<'a> {
             self.ctx.probe("checkpoints_in_different_ticks");
             self.ctx.fp("diff-tick");
         }
-        self.cps.push(Cp { seq, id, name: real_name, auto: false, created_at, dump });
+        let indexes = self.indexes.clone();
+        self.cps.push(Cp { seq, id, name: real_name, auto: false, created_at, dump, indexes });
         if self.cps.len() > self.case.max_checkpoints {
             self.ctx.probe("retention_evicts");
             let n = self.cps.len();
@@ -597,7 +695,8 @@ impl<'a> Sys<'a> {
         if self.cps.iter().any(|k| k.created_at == c.created_at) {
             self.ctx.probe("two_checkpoints_same_tick");
         }
-        self.cps.push(Cp { seq, id: c.id.clone(), name: c.name.clone(), auto: true, created_at: c.created_at, dump: before.clone() });
+        let indexes = self.indexes.clone();
+        self.cps.push(Cp { seq, id: c.id.clone(), name: c.name.clone(), auto: true, created_at: c.created_at, dump: before.clone(), indexes });
         if self.cps.len() > self.case.max_checkpoints {
             self.ctx.probe("retention_evicts");
         }
@@ -642,6 +741,16 @@ impl<'a> Sys<'a> {
             );
         }
         self.rollbacks += 1;
+        if self.cps[ci].indexes.iter().any(|x| !self.indexes.contains(x)) {
+            // an index that existed at the checkpoint and was dropped since is back
+            self.ctx.probe("rollback_brings_back_dropped_index");
+            self.ctx.fp("rb-index-back");
+        }
+        self.indexes = self.cps[ci].indexes.clone();
+        if retained.len() - retained.iter().position(|i| *i == ci).unwrap_or(0) > 10 {
+            self.ctx.probe("rollback_to_retained_checkpoint_older_than_the_10_newest");
+            self.ctx.fp("rb-beyond-10");
+        }
         if ci == retained[0] && retained.len() > 1 {
             self.ctx.probe("rollback_to_oldest_retained");
         }
@@ -733,6 +842,27 @@ impl<'a> Sys<'a> {
                 self.ctx.event(&format!("{q} -> {}", canon(&r)));
                 if r.is_ok() {
                     self.ctx.fp("index");
+                    if !self.indexes.contains(&(t, c)) {
+                        self.indexes.push((t, c));
+                    }
+                }
+                Ok(())
+            },
+            Step::DropIndex { n } => {
+                if self.indexes.is_empty() {
+                    return Ok(());
+                }
+                let (t, c) = self.indexes[*n as usize % self.indexes.len()];
+                let q = format!("DROP INDEX ON t{t}({c})");
+                let r = self.exec(&q);
+                self.ctx.event(&format!("{q} -> {}", canon(&r)));
+                if r.is_ok() {
+                    self.ctx.fp("drop-index");
+                    self.ctx.probe("index_dropped");
+                    self.indexes.retain(|x| *x != (t, c));
+                    if self.cps.iter().any(|cp| cp.indexes.contains(&(t, c))) {
+                        self.ctx.probe("index_that_a_checkpoint_holds_dropped");
+                    }
                 }
                 Ok(())
             },
@@ -741,6 +871,9 @@ impl<'a> Sys<'a> {
                 let q = format!("DROP TABLE t{t}");
                 let r = self.exec(&q);
                 self.ctx.event(&format!("{q} -> {}", canon(&r)));
+                if r.is_ok() {
+                    self.indexes.retain(|x| x.0 != t);
+                }
                 Ok(())
             },
             Step::Insert { .. } | Step::InsertWide { .. } => {
@@ -781,6 +914,28 @@ impl<'a> Sys<'a> {
                     if !ok {
                         return self.write_violation("insert", "read-back-differs", format!("after `{q}`: SELECT WHERE k = {u} returned {}", canon(&back)));
                     }
+                    // ... and every entry point finds it, by key, by group and by text value
+                    let has_row = |r: &Result<QueryResult, RouterError>| match r {
+                        Ok(QueryResult::Rows(rows)) => rows.iter().any(|row| {
+                            row.get("k") == Some(&RelValue::Int(i64::from(*u))) && row.get("v") == Some(&RelValue::String(val.clone())) && row.get("g") == Some(&RelValue::Int(i64::from(g)))
+                        }),
+                        _ => false,
+                    };
+                    let by_g = format!("SELECT * FROM t{t} WHERE g = {g}");
+                    let r_g = self.exec(&by_g);
+                    if !has_row(&r_g) {
+                        return self.write_violation("insert", "read-back-differs", format!("after `{q}`: `{by_g}` returned {}", canon(&r_g)));
+                    }
+                    let mut sels = vec![format!("SELECT * FROM t{t} WHERE k = {u}"), by_g];
+                    if pad == 0 {
+                        sels.push(format!("SELECT * FROM t{t} WHERE v = '{val}'"));
+                    }
+                    for sel in &sels {
+                        if let Err((entry, got)) = self.select_others(sel, has_row) {
+                            return self.write_violation("insert", "read-back-differs-by-entry-point", format!("after `{q}`: `{sel}` through {entry} returned {got} (the new row is not in it)"));
+                        }
+                    }
+                    self.ctx.probe("write_read_back_through_every_entry_point");
                     // the new row is in addition to the rows that were there
                     let all = self.exec(&format!("SELECT * FROM t{t}"));
                     if !matches!(&all, Ok(QueryResult::Rows(r)) if r.len() == pre_rows + 1) {
@@ -811,6 +966,23 @@ impl<'a> Sys<'a> {
                     if !ok {
                         return self.write_violation("update", "read-back-differs", format!("after `{q}`: `{sel}` returned {}", canon(&back)));
                     }
+                    // every entry point sees the updated rows, by group and by the new text value
+                    let want_v = RelValue::String(format!("w{u}"));
+                    let want_g = RelValue::Int(i64::from(g));
+                    let updated = |r: &Result<QueryResult, RouterError>| match r {
+                        Ok(QueryResult::Rows(rows2)) => rows2.iter().filter(|row| row.get("v") == Some(&want_v) && row.get("g") == Some(&want_g)).count() == n,
+                        _ => false,
+                    };
+                    let by_v = format!("SELECT * FROM t{t} WHERE v = 'w{u}'");
+                    let r_v = self.exec(&by_v);
+                    if !updated(&r_v) {
+                        return self.write_violation("update", "read-back-differs", format!("after `{q}` over {n} rows: `{by_v}` returned {}", canon(&r_v)));
+                    }
+                    for s2 in [&sel, &by_v] {
+                        if let Err((entry, got)) = self.select_others(s2, updated) {
+                            return self.write_violation("update", "read-back-differs-by-entry-point", format!("after `{q}` over {n} rows: `{s2}` through {entry} returned {got}"));
+                        }
+                    }
                 }
                 Ok(())
             },
@@ -831,6 +1003,9 @@ impl<'a> Sys<'a> {
                     let back = canon(&self.exec(&sel));
                     if back != "Rows[]" {
                         return self.write_violation("delete", "read-back-differs", format!("after `{q}`: `{sel}` returned {back}"));
+                    }
+                    if let Err((entry, got)) = self.select_others(&sel, |r| canon(r) == "Rows[]") {
+                        return self.write_violation("delete", "read-back-differs-by-entry-point", format!("after `{q}`: `{sel}` through {entry} returned {got}"));
                     }
                 }
                 Ok(())
@@ -1037,10 +1212,11 @@ fn gen_write(rng: &mut Rng, u: &mut u32) -> Step {
     *u += 1;
     let u = *u;
     match rng.below(100) {
-        0..=8 => Step::CreateTable { t: rng.below(u64::from(N_TABLES)) as u8 },
-        9..=12 => Step::CreateIndex { t: rng.below(u64::from(N_TABLES)) as u8, col: rng.below(3) as u8 },
-        13..=16 => Step::DropTable { t: rng.below(u64::from(N_TABLES)) as u8 },
-        17..=36 => Step::Insert { t: rng.below(2) as u8, g: rng.below(u64::from(N_GROUPS)) as u8, u },
+        0..=6 => Step::CreateTable { t: rng.below(u64::from(N_TABLES)) as u8 },
+        7..=10 => Step::CreateIndex { t: rng.below(u64::from(N_TABLES)) as u8, col: rng.below(3) as u8 },
+        11..=14 => Step::DropIndex { n: rng.below(4) as u8 },
+        15..=17 => Step::DropTable { t: rng.below(u64::from(N_TABLES)) as u8 },
+        18..=36 => Step::Insert { t: rng.below(2) as u8, g: rng.below(u64::from(N_GROUPS)) as u8, u },
         37..=42 => Step::Update { t: rng.below(2) as u8, g: rng.below(u64::from(N_GROUPS)) as u8, u },
         43..=48 => Step::Delete { t: rng.below(2) as u8, g: rng.below(u64::from(N_GROUPS)) as u8 },
         49..=60 => Step::NodeCreate { label: rng.below(u64::from(N_LABELS)) as u8, u },
@@ -1078,12 +1254,22 @@ impl Scenario for C08 {
     }
 
     fn generate(&self, rng: &mut Rng, _tier: Tier, index: u64) -> Case {
-        let max_checkpoints = rng.range(1, 4) as usize;
+        // Retention counts above the default configuration's 10 (which is also
+        // the page size of a CHECKPOINTS statement without LIMIT) in one case
+        // out of ten; such a case is mostly a long burst of checkpoints, so
+        // that more checkpoints are retained than one page lists.
+        // Every artifact embeds the retained older ones, so artifact size doubles
+        // per retained checkpoint (0.5 KiB -> some MiB at the 13th): burst cases
+        // are one in twenty, stop one checkpoint after retention starts to
+        // evict, and have no wide rows.
+        let large = rng.chance(1, 20);
+        let max_checkpoints = if large { rng.range(11, 12) as usize } else { rng.range(1, 4) as usize };
+        let cp_cap = if large { max_checkpoints + 1 } else { 6 };
         let auto_checkpoint = rng.chance(1, 4);
         let mut steps = Vec::new();
         let mut u = ((index as u32) & 0xfff) << 8;
         let mut statements = 0usize;
-        let budget = rng.range(10, 30) as usize;
+        let budget = if large { rng.range(24, 40) as usize } else { rng.range(10, 30) as usize };
         // a relational table early in most runs (the suspected defect concerns tables)
         if rng.chance(4, 5) {
             steps.push(Step::CreateTable { t: 0 });
@@ -1092,15 +1278,20 @@ impl Scenario for C08 {
                 steps.push(Step::CreateTable { t: 1 });
                 statements += 1;
             }
+            // an index from the start in some runs: checkpoints then hold it
+            if rng.chance(1, 3) {
+                steps.push(Step::CreateIndex { t: rng.below(2) as u8, col: rng.below(3) as u8 });
+                statements += 1;
+            }
         }
         let back_step_run = rng.chance(1, 12);
         let mut n_cp = 0;
         while statements < budget {
             let r = rng.below(100);
-            let s = if r < 62 {
+            let s = if r < if large { 30 } else { 62 } {
                 gen_write(rng, &mut u)
-            } else if r < 82 {
-                if n_cp >= 6 {
+            } else if r < if large { 88 } else { 82 } {
+                if n_cp >= cp_cap {
                     gen_write(rng, &mut u)
                 } else {
                     n_cp += 1;
@@ -1108,7 +1299,7 @@ impl Scenario for C08 {
                     let named = rng.chance(1, 2);
                     steps.push(Step::Checkpoint { named });
                     statements += 1;
-                    if rng.chance(1, 3) && n_cp < 6 {
+                    if rng.chance(1, 3) && n_cp < cp_cap {
                         if let Some(c) = gen_clock(rng) {
                             steps.push(c);
                         }
@@ -1120,9 +1311,23 @@ impl Scenario for C08 {
                     }
                 }
             } else if n_cp > 0 {
-                Step::Rollback { pick: rng.below(8) as u8, by_name: rng.chance(1, 3) }
+                Step::Rollback { pick: rng.below(16) as u8, by_name: rng.chance(1, 3) }
             } else {
                 gen_write(rng, &mut u)
+            };
+            // with auto_checkpoint on a destructive statement takes a checkpoint
+            // too: in a burst case it counts towards the cap (artifact sizes
+            // double per checkpoint taken, evicted or not)
+            let s = if large && auto_checkpoint && matches!(s, Step::Delete { .. } | Step::NodeDelete { .. } | Step::EdgeDelete { .. } | Step::EmbedDelete { .. } | Step::DropTable { .. }) {
+                if n_cp >= cp_cap {
+                    u += 1;
+                    Step::Insert { t: 0, g: (u % 3) as u8, u }
+                } else {
+                    n_cp += 1;
+                    s
+                }
+            } else {
+                s
             };
             steps.push(s);
             statements += 1;
@@ -1133,7 +1338,8 @@ impl Scenario for C08 {
                 steps.push(Step::ClockBack { ms: rng.range(500, 5000) });
             }
         }
-        let sweep = rng.below(3) as u8;
+        // (a burst case always ends with the sweep: that is what it is for)
+        let sweep = if large { rng.range(1, 2) as u8 } else { rng.below(3) as u8 };
         // Configuration of the blob store that holds the checkpoint artifacts
         // (QueryRouter::init_blob_with_config). An artifact embeds a snapshot of
         // the whole store, older artifacts included, so its size roughly
@@ -1141,16 +1347,16 @@ impl Scenario for C08 {
         // for this workload): a limit drawn log-uniformly from 512 B .. 128 KiB
         // lets the first few CHECKPOINTs pass and refuses later ones, and a
         // rollback to an early checkpoint makes the database fit again.
-        let blob_max_artifact = if rng.chance(2, 5) {
+        let blob_max_artifact = if rng.chance(2, 5) && !(large && rng.chance(3, 4)) {
             let exp = rng.range(9, 16); // 2^9 .. 2^17
             Some((1usize << exp) + rng.below(1 << exp) as usize)
         } else {
             None
         };
-        let blob_chunk_size = if rng.chance(1, 4) { Some(*rng.pick(&[512usize, 2048, 8192, 32768])) } else { None };
+        let blob_chunk_size = if rng.chance(1, 4) { Some(*rng.pick(if large { &[8192usize, 32768, 8192, 32768] } else { &[512usize, 2048, 8192, 32768] })) } else { None };
         // rows of widely varying size: the database outgrows a limit at once
         // instead of checkpoint by checkpoint
-        if rng.chance(1, 3) {
+        if rng.chance(1, 3) && !large {
             for s in &mut steps {
                 if let Step::Insert { t, g, u } = *s {
                     if rng.chance(1, 2) {
@@ -1193,6 +1399,7 @@ impl Scenario for C08 {
             nodes: Vec::new(),
             edges: Vec::new(),
             keys: Vec::new(),
+            indexes: Vec::new(),
             cps: Vec::new(),
             rollbacks: 0,
             refused: 0,
@@ -1210,7 +1417,7 @@ impl Scenario for C08 {
                 Step::Clock { .. } => "t",
                 Step::ClockBack { .. } => "B",
                 Step::InsertWide { .. } => "W",
-                Step::Insert { .. } | Step::Update { .. } | Step::Delete { .. } | Step::CreateTable { .. } | Step::DropTable { .. } | Step::CreateIndex { .. } => "r",
+                Step::Insert { .. } | Step::Update { .. } | Step::Delete { .. } | Step::CreateTable { .. } | Step::DropTable { .. } | Step::CreateIndex { .. } | Step::DropIndex { .. } => "r",
                 Step::NodeCreate { .. } | Step::NodeDelete { .. } | Step::EdgeCreate { .. } | Step::EdgeDelete { .. } => "g",
                 _ => "v",
             });
@@ -1322,6 +1529,7 @@ impl Scenario for C08 {
                 Step::Checkpoint { named: false } => Some(Step::Checkpoint { named: true }),
                 Step::InsertWide { t, g, u, kib } if *kib > 1 => Some(Step::InsertWide { t: *t, g: *g, u: *u, kib: 1 }),
                 Step::InsertWide { t, g, u, .. } => Some(Step::Insert { t: *t, g: *g, u: *u }),
+                Step::DropIndex { n } if *n > 0 => Some(Step::DropIndex { n: 0 }),
                 Step::Rollback { pick, by_name: true } => Some(Step::Rollback { pick: *pick, by_name: false }),
                 Step::Rollback { pick, by_name } if *pick > 0 => Some(Step::Rollback { pick: 0, by_name: *by_name }),
                 _ => None,
@@ -1345,6 +1553,11 @@ impl Scenario for C08 {
             "retention_evicts",
             "eviction_decided_inside_one_tick",
             "rollback_compared",
+            // more retained checkpoints than CHECKPOINTS lists by default
+            "rollback_to_retained_checkpoint_older_than_the_10_newest",
+            // index metadata restored behind the relational engine's back, then written to and queried
+            "rollback_brings_back_dropped_index",
+            "write_read_back_through_every_entry_point",
             // a pass without these says nothing about refused CHECKPOINTs
             "checkpoint_refused_by_artifact_size_limit",
             "checkpoint_refused_with_retention_full",
@@ -1353,7 +1566,7 @@ impl Scenario for C08 {
     }
 
     fn rule(&self) -> String {
-        "A case is max_checkpoints (1-4), auto_checkpoint on/off, the blob store configuration (max_artifact_size none or 512 B-128 KiB, chunk_size default or 512 B-32 KiB), a final-sweep order and a program of <=30 statements (CREATE TABLE/INDEX, INSERT of rows of 10 B-16 KiB, UPDATE, DELETE, DROP TABLE, NODE/EDGE CREATE/DELETE, EMBED STORE/DELETE, CHECKPOINT named or default-named, ROLLBACK TO by id or name of any checkpoint the creation-order model retains) with clock advances of 0 ms, 1-999 ms or 1-3.5 s between statements, executed as query text by one real QueryRouter with real BlobStore and CheckpointManager. Non-trivial: at least one ROLLBACK TO succeeded and the full observable dump was compared with the dump taken at that checkpoint. Distinct: hash of (max_checkpoints, auto flag, sequence of step classes, same-tick/different-tick/tie-eviction marks, rollback by id or name, blob limit magnitude and chunk size, refused checkpoints).".into()
+        "A case is max_checkpoints (1-4, or 11-12 in one case of twenty, which is then mostly a burst of up to max+1 checkpoints without wide rows followed by the final sweep), auto_checkpoint on/off, the blob store configuration (max_artifact_size none or 512 B-128 KiB, chunk_size default or 512 B-32 KiB), a final-sweep order and a program of <=30 (burst cases <=40) statements (CREATE TABLE/INDEX, DROP INDEX of an index built earlier, INSERT of rows of 10 B-16 KiB, UPDATE, DELETE, DROP TABLE, NODE/EDGE CREATE/DELETE, EMBED STORE/DELETE, CHECKPOINT named or default-named, ROLLBACK TO by id or name of any checkpoint the creation-order model retains) with clock advances of 0 ms, 1-999 ms or 1-3.5 s between statements, executed as query text by one real QueryRouter with real BlobStore and CheckpointManager; the relational queries of the dump (full scans and equalities on key, group and text columns) and the read-backs after judged writes are asked through all three public entry points (execute, execute_parsed, execute_parsed_async). Non-trivial: at least one ROLLBACK TO succeeded and the full observable dump was compared with the dump taken at that checkpoint. Distinct: hash of (max_checkpoints, auto flag, sequence of step classes, same-tick/different-tick/tie-eviction marks, rollback by id or name, blob limit magnitude and chunk size, refused checkpoints).".into()
     }
 
     fn components(&self) -> Value {
@@ -1367,6 +1580,7 @@ impl Scenario for C08 {
     fn assumptions(&self) -> Vec<String> {
         vec![
             "statement errors are compared by RouterError variant, not by message text".into(),
+            "each entry point's answer to a SELECT is compared with the same entry point's answer at the checkpoint; entry points are not compared with each other, except that after a judged write every entry point must find the written rows".into(),
             "result sets are compared order-insensitively (no statement of the workload has ORDER BY); SIMILAR probes use LIMIT >= number of stored embeddings so ties at the cut-off cannot change the set; floats bit-exact; embeddings have 4 dimensions (no lossy snapshot encoding)".into(),
             "ROLLBACK TO by a default name shared by several retained checkpoints may restore any one of the namesakes".into(),
             "a backwards step of the wall clock is outside the quantifier: runs containing one report labelled observations only".into(),
